@@ -230,7 +230,40 @@ pub struct SizeMap {
     /// parsing the Tag rendering gives back the same Tag matrix and the right size (generic bit type round trip)
     pub tag_roundtrip_ok: bool,
     pub width: usize,
+    /// lazily: does the parser accept an array of the generic bit type in which one fixed module holds a value
+    /// that is neither LOW nor HIGH (and then fail to re-render it)? Some(description) if so.
+    pub third_value_check: std::sync::OnceLock<Option<String>>,
+    tags: Vec<Tag>,
 }
+
+impl SizeMap {
+    /// "For any pixel array whatsoever": an array of a bit type with more than two values, equal to a valid
+    /// rendering except for ONE fixed module holding a third value, for every fixed module of the size.
+    pub fn third_value(&self, s: &SizeInfo) -> &Option<String> {
+        self.third_value_check.get_or_init(|| {
+            let third = Tag(0xFFFF_FFF0);
+            let mut arr = self.tags.clone();
+            for px in &self.template_fixed_pixels {
+                let i = *px as usize;
+                let keep = arr[i];
+                arr[i] = third;
+                if let Ok((m, _)) = MatrixMap::<Tag>::try_from_bits(&arr, self.width) {
+                    if m.bitmap().bits() != &arr[..] {
+                        return Some(format!(
+                            "{}: an array whose fixed module at row {} col {} holds a value that is neither LOW nor HIGH was accepted, and re-rendering does not reproduce it",
+                            s.name,
+                            i / self.width,
+                            i % self.width
+                        ));
+                    }
+                }
+                arr[i] = keep;
+            }
+            None
+        })
+    }
+}
+
 
 /// Build the pixel map of a size. Runs crate code (`MatrixMap::<Tag>`); the caller guards it.
 pub fn build_size_map(s: &SizeInfo) -> SizeMap {
@@ -301,6 +334,8 @@ pub fn build_size_map(s: &SizeInfo) -> SizeMap {
         roles_agree_with_template: agree,
         tag_roundtrip_ok,
         width,
+        third_value_check: std::sync::OnceLock::new(),
+        tags: tags.to_vec(),
     }
 }
 
